@@ -259,6 +259,10 @@ void OPNMIDIplay::resetMIDIDefaults(int offset)
 void OPNMIDIplay::TickIterators(double s)
 {
     Synth &synth = *m_synth;
+    // A music file can ask for a delay of centuries: no timer of the synthesizer looks
+    // further than a few seconds, and the microsecond counters must not overflow
+    if(s > 3600.0)
+        s = 3600.0;
     for(uint32_t c = 0, n = synth.m_numChannels; c < n; ++c)
     {
         OpnChannel &ch = m_chipChannels[c];
